@@ -78,6 +78,9 @@ def build_snapshot(shape, rng):
         # values that ARE an int / float / str (instances of subclasses: IntEnum members, HTTPStatus, numpy-style floats)
         attrs.update({'status': http.HTTPStatus.NOT_FOUND, 'level': enum.IntEnum('Level', 'LOW HIGH').HIGH,
                       'weight': Kilo(2.5), 'tag': Label('blue')})
+        # text that is not valid UTF-8 text (a file name from os.fsdecode, a value read with surrogateescape) inside a
+        # sequence and as a key
+        attrs.update({'seq_sur': ['ok', 'bad\udc80'], 'key\udc80': 'v'})
         attrs.update({'seq_none': ['x', None, 'y'], 'none_first': [None, 'z'], 'big': 2 ** 63, 'bigger': 2 ** 70,
                       'small': -(2 ** 63) - 1, 'edge': 2 ** 63 - 1, 'edge_neg': -(2 ** 63)})
     if attrs:
@@ -152,8 +155,8 @@ def expected_image(s):
         'watches': [{'expr': e(w.expression), 'source': w.source,
                      'good': vid(w.result) if (w.result is not None and w.error is None) else None,
                      'error': e(w.error) if w.error is not None else None} for w in s.watches],
-        'attrs': {k: expect_value(v) for k, v in s.attributes.items()},
-        'resource': {k: expect_value(v) for k, v in s.resource.attributes.items()},
+        'attrs': {e(k): expect_value(v) for k, v in s.attributes.items()},
+        'resource': {e(k): expect_value(v) for k, v in s.resource.attributes.items()},
         'log_msg': e(s.log_msg) if s.log_msg is not None else None,
     }
 
@@ -250,6 +253,10 @@ def run_shape(shape, rng):
     from deepproto.proto.poll.v1.poll_pb2 import PollResponse, ResponseType
     svc, cfg = grpc_service(shape['auth'])
     cfg.resource = Resource.create()
+    if shape['attrs'] == 'awkward':
+        # the resource that goes out with every poll: a service name that is not valid UTF-8 text (DEEP_SERVICE_NAME with
+        # a Latin-1 byte reaches Python with a lone surrogate), also inside a sequence
+        cfg.resource = cfg.resource.merge(Resource({'service.name': 'caf\udce9', 'hosts': ['a', 'b\udc80']}))
     svc.channel.script('/poll', lambda req: PollResponse(response_type=ResponseType.NO_CHANGE))
     snap = build_snapshot(shape, rng)
     exp = expected_image(snap)
